@@ -201,3 +201,24 @@ func Harness_C12_q_type_and_range() {
 	zzCheck(c, "-after-repeat")
 	verif.Reach("end")
 }
+
+// The application answers reads through a value-get callback (OnValueGet): whatever the
+// callback returns - any JSON-like value - what is stored and handed to the reader has the
+// declared type and lies within the declared bounds, exactly as for a direct update.
+func Harness_C12_q_value_from_get_callback() {
+	format := zzFormats[verif.Choice("format", len(zzFormats))]
+	mode := 1
+	verif.Fact("bounds", "min+max")
+	c := zzNew(format, mode)
+	v, kind := zzJSONValue("v")
+	verif.Fact("format", format)
+	verif.Fact("kind", kind)
+	c.OnValueGet(func() interface{} { return v })
+	p := verif.Panics(func() { c.GetValueFromConnection(zzConn{1}) })
+	verif.Assert(!p, "nopanic-read-with-get-callback")
+	if p {
+		return
+	}
+	zzCheck(c, "")
+	verif.Reach("end")
+}
